@@ -1,191 +1,6 @@
-// C03 (part): operand-type matrix for the compound operators.  See C03.cc / C03_common.hh.
-#define C03_NO_FORCE_INLINE
-#include "C03_common.hh"
-
-// ---------------------------------------------------------------------------------------------
-// Operand-type matrix: every compound operator with operands of several C++ types.  The oracle is the
-// native operator applied to a native variable with the *same operand expression type* (so the usual
-// arithmetic conversions - promotion of uint8/uint16, unsigned/64-bit operands, int operands on float
-// wrappers - happen identically on both sides; a wrapper that converts, negates or narrows the operand
-// in its own type first is visible).
-namespace {
-
-// An operand value of one of the operand types, carried type-erased so that the loops and the
-// accounting are compiled once per wrapper type; only run_binop<W, T, D> is instantiated per D.
-enum DType { DT_INT, DT_UNSIGNED, DT_INT64, DT_UINT64, DT_UINT8, DT_UINT16, DT_INT8, DT_INT16, DT_FLOAT, DT_DOUBLE, NDTYPES };
-const char* dt_name[NDTYPES] = {"int", "unsigned", "int64_t", "uint64_t", "uint8_t", "uint16_t", "int8_t", "int16_t", "float", "double"};
-struct OpVal {
-  int dt;
-  int64_t i;    // integer operand types: the value (uint64_t stored modulo 2^64)
-  double f;     // float / double operands
-};
-std::string show_opval(const OpVal& v) {
-  if (v.dt >= DT_FLOAT) return vf::fmt("(%s)%.17g", dt_name[v.dt], v.f);
-  if (v.dt == DT_UNSIGNED || v.dt == DT_UINT64 || v.dt == DT_UINT8 || v.dt == DT_UINT16) return vf::fmt("(%s)%llu", dt_name[v.dt], (unsigned long long)v.i);
-  return vf::fmt("(%s)%lld", dt_name[v.dt], (long long)v.i);
-}
-
-// boundary operand values of type D: 0, 1, 2, 3, 7, max, max-1, top bit / min, and neighbours
-template <class D>
-void add_operands(std::vector<OpVal>& out, int dt) {
-  if constexpr (std::is_floating_point_v<D>) {
-    for (D d : {D(0), D(1), D(3), D(0.5), D(-1), D(2), D(-0.0), D(1e10), D(-3.25), D(16777217.0), D(0.1)}) out.push_back({dt, 0, static_cast<double>(d)});
-  } else if constexpr (std::is_signed_v<D>) {
-    D mx = std::numeric_limits<D>::max(), mn = std::numeric_limits<D>::min();
-    for (D d : {D(0), D(1), D(2), D(3), D(7), D(-1), D(-2), D(-3), mx, D(mx - 1), mn, D(mn + 1), D(mx / 2 + 1)}) out.push_back({dt, static_cast<int64_t>(d), 0});
-  } else {
-    D mx = std::numeric_limits<D>::max();
-    D top = D(D(1) << (sizeof(D) * 8 - 1));
-    for (D d : {D(0), D(1), D(2), D(3), D(7), mx, D(mx - 1), D(mx - 2), top, D(top - 1), D(top + 1), D(mx / 3)}) out.push_back({dt, static_cast<int64_t>(d), 0});
-  }
-}
-std::vector<OpVal> all_operands(bool with_fp) {
-  std::vector<OpVal> v;
-  add_operands<int>(v, DT_INT);
-  add_operands<unsigned>(v, DT_UNSIGNED);
-  add_operands<int64_t>(v, DT_INT64);
-  add_operands<uint64_t>(v, DT_UINT64);
-  add_operands<uint8_t>(v, DT_UINT8);
-  add_operands<uint16_t>(v, DT_UINT16);
-  add_operands<int8_t>(v, DT_INT8);
-  add_operands<int16_t>(v, DT_INT16);
-  if (with_fp) {
-    add_operands<float>(v, DT_FLOAT);
-    add_operands<double>(v, DT_DOUBLE);
-  }
-  return v;
-}
-std::vector<OpVal> all_shift_counts(size_t width_bits) {
-  std::vector<OpVal> v;
-  for (int dt = DT_INT; dt <= DT_INT16; dt++)
-    for (unsigned c : {0u, 1u, 3u, 7u, 8u, 15u, 16u, 31u, 32u, 33u, 63u})
-      if (c < width_bits) v.push_back({dt, static_cast<int64_t>(c), 0});
-  return v;
-}
-
-// ---- boundary values far from the usual: 2^k-1, 2^k, 2^k+1 for every k up to the width, and their negatives ----
-template <class D>
-std::vector<D> pow2_values() {
-  std::vector<D> v;
-  if constexpr (std::is_floating_point_v<D>) {
-    std::vector<D> c = {D(0), D(1), std::numeric_limits<D>::denorm_min(), std::numeric_limits<D>::min(), std::numeric_limits<D>::max(), std::numeric_limits<D>::infinity(), D(0.5), D(1.5), D(0.1)};
-    for (int k : {1, 7, 8, 15, 16, 23, 24, 25, 31, 32, 33, 52, 53, 54, 63, 64, 65, std::numeric_limits<D>::max_exponent - 1}) {
-      D p = ldexp(D(1), k);
-      for (D x : {p, nextafter(p, D(0)), nextafter(p, std::numeric_limits<D>::infinity()), D(p - 1), D(p + 1)}) c.push_back(x);
-    }
-    for (D x : c)
-      for (D y : {x, D(-x)}) {
-        bool seen = false;
-        for (D z : v) seen = seen || bits_of(z) == bits_of(y);
-        if (!seen) v.push_back(y);
-      }
-  } else {
-    using UD = std::make_unsigned_t<D>;
-    constexpr int w = sizeof(D) * 8;
-    for (int k = 0; k <= w; k++)
-      for (int dlt = -1; dlt <= 1; dlt++) {
-        UD u = static_cast<UD>((k < w ? static_cast<UD>(static_cast<UD>(1) << k) : static_cast<UD>(0)) + static_cast<UD>(dlt));
-        for (UD x : {u, static_cast<UD>(UD(0) - u)}) {
-          D s = static_cast<D>(x);
-          bool seen = false;
-          for (D y : v) seen = seen || y == s;
-          if (!seen) v.push_back(s);
-        }
-      }
-  }
-  return v;
-}
-template <class D>
-void add_pow2(std::vector<OpVal>& out, int dt) {
-  for (D d : pow2_values<D>()) {
-    if constexpr (std::is_floating_point_v<D>) out.push_back({dt, 0, static_cast<double>(d)});
-    else out.push_back({dt, static_cast<int64_t>(d), 0});
-  }
-}
-std::vector<OpVal> pow2_operands(bool with_fp) {
-  std::vector<OpVal> v;
-  add_pow2<int>(v, DT_INT);
-  add_pow2<unsigned>(v, DT_UNSIGNED);
-  add_pow2<int64_t>(v, DT_INT64);
-  add_pow2<uint64_t>(v, DT_UINT64);
-  add_pow2<uint8_t>(v, DT_UINT8);
-  add_pow2<uint16_t>(v, DT_UINT16);
-  add_pow2<int8_t>(v, DT_INT8);
-  add_pow2<int16_t>(v, DT_INT16);
-  if (with_fp) {
-    add_pow2<float>(v, DT_FLOAT);
-    add_pow2<double>(v, DT_DOUBLE);
-  }
-  return v;
-}
-// every count below the width, as each integer operand type; plus boundary counts carried in wide types
-std::vector<OpVal> every_shift_count(size_t width_bits) {
-  std::vector<OpVal> v;
-  for (int dt = DT_INT; dt <= DT_INT16; dt++)
-    for (unsigned c = 0; c < width_bits; c++) v.push_back({dt, static_cast<int64_t>(c), 0});
-  return v;
-}
-
-// the only per-operand-type instantiation: the operator on wrapper and native with a D-typed operand
-template <class W, class T>
-void exec_typed(Cell<W>& cell, Order o, int op, T v, const OpVal& d, Obs& ob) {
-  switch (d.dt) {
-    case DT_INT: run_binop<W, T, int>(cell, o, op, v, static_cast<int>(d.i), ob); break;
-    case DT_UNSIGNED: run_binop<W, T, unsigned>(cell, o, op, v, static_cast<unsigned>(d.i), ob); break;
-    case DT_INT64: run_binop<W, T, int64_t>(cell, o, op, v, d.i, ob); break;
-    case DT_UINT64: run_binop<W, T, uint64_t>(cell, o, op, v, static_cast<uint64_t>(d.i), ob); break;
-    case DT_UINT8: run_binop<W, T, uint8_t>(cell, o, op, v, static_cast<uint8_t>(d.i), ob); break;
-    case DT_UINT16: run_binop<W, T, uint16_t>(cell, o, op, v, static_cast<uint16_t>(d.i), ob); break;
-    case DT_INT8: run_binop<W, T, int8_t>(cell, o, op, v, static_cast<int8_t>(d.i), ob); break;
-    case DT_INT16: run_binop<W, T, int16_t>(cell, o, op, v, static_cast<int16_t>(d.i), ob); break;
-    default:
-      // integer wrappers take float / double operands only with + - * / (%, &, |, ^, <<, >> are ill-formed natively too)
-      if (std::is_integral_v<T> && op > OP_DIV) __builtin_trap();
-      if (d.dt == DT_FLOAT) run_binop<W, T, float>(cell, o, op, v, static_cast<float>(d.f), ob);
-      else run_binop<W, T, double>(cell, o, op, v, d.f, ob);
-      break;
-  }
-}
-
-template <class W, class T>
-void drive_optypes(vf::Run& r, const char* wname, Order o, const std::vector<T>& values, bool pow2 = false) {
-  r.note(wname);
-  Tally t;
-  Cell<W> cell;
-  Obs ob;
-  uint64_t compared[NDTYPES] = {0};
-  constexpr bool fp = std::is_floating_point_v<T>;
-  std::vector<OpVal> operands = pow2 ? pow2_operands(fp) : all_operands(fp);
-  std::vector<OpVal> arith_operands = pow2 ? pow2_operands(true) : all_operands(true);  // + float / double operands, for + - * / on every wrapper
-  std::vector<OpVal> counts = fp ? std::vector<OpVal>() : (pow2 ? every_shift_count(sizeof(T) * 8) : all_shift_counts(sizeof(T) * 8));
-  for (int op = OP_ADD; op <= OP_SHR; op++) {
-    if (fp && op > OP_DIV) break;
-    const std::vector<OpVal>& ds = (op == OP_SHL || op == OP_SHR) ? counts : (op <= OP_DIV ? arith_operands : operands);
-    for (const OpVal& d : ds)
-      for (T v : values) {
-        if (!r.take()) continue;
-        exec_typed<W, T>(cell, o, op, v, d, ob);
-        if (r.wants_desc()) r.desc(describe_head<T>(wname, o, op, bits_of(v), show_opval(d), ob));
-        if (!ob.skipped) compared[d.dt]++;
-        account<T>(r, t, op, ob, wname, o, bits_of(v), [&] { return show_opval(d); });
-      }
-  }
-  for (int dt = 0; dt < NDTYPES; dt++)
-    if (compared[dt]) r.counters[std::string("compared with operand type ") + dt_name[dt]] += compared[dt];
-  t.flush(r, (std::string(wname) + "/").c_str());
-}
-
-// stored values: boundary values of the width + byte-lane patterns
-template <class T>
-std::vector<T> optype_values() {
-  std::vector<uint64_t> b = {0, 1, 2, 3, 10, 0x7F, 0x80, 0xFF, 0x100, 0x1234, 0x7FFF, 0x8000, 0xA5A5, 0xFFFE, 0xFFFF};
-  if (sizeof(T) >= 4) b.insert(b.end(), {0x10000, 0x01020304, 0x7FFFFFFF, 0x80000000ull, 0xA5A5A5A5ull, 0xFFFFFFFEull, 0xFFFFFFFFull});
-  if (sizeof(T) >= 8) b.insert(b.end(), {0x100000000ull, 0x100000007ull, 0x0102030405060708ull, 0x7FFFFFFFFFFFFFFFull, 0x8000000000000000ull, 0xA5A5A5A5A5A5A5A5ull, 0xFFFFFFFFFFFFFFFEull, 0xFFFFFFFFFFFFFFFFull});
-  return typed<T>(b);
-}
-
-}  // namespace
-
+// C03 (part): operand-type matrix for the compound operators (sections optypes, pow2).  The machinery is in
+// C03_optypes.hh.  See C03.cc / C03_common.hh.
+#include "C03_optypes.hh"
 
 VF_SECTION(optypes, 8, 8, 120) {
 #define X(W, T, O) drive_optypes<W, T>(r, #W, O, optype_values<T>());
@@ -206,7 +21,7 @@ VF_SECTION(optypes, 8, 8, 120) {
     C03_WF64(X)
 #undef X
   }
-  r.bound = "operand-type matrix: 18 integer wrapper types x {+=,-=,*=,/=,%=,&=,|=,^=} x operand types {int, unsigned, int64_t, uint64_t, uint8_t, uint16_t, int8_t, int16_t} x 12-13 boundary operand values per type x 15/22/30 stored values, plus <<=/>>= with counts of each operand type below the width; 6 float/double wrapper types x {+=,-=,*=,/=} x operand types {int, unsigned, int64_t, uint64_t, uint8_t, uint16_t, int8_t, int16_t, float, double} x boundary operand values x 30 stored values (NaNs, infinities, denormals included); native operator applied with the same operand expression type";
+  r.bound = "operand-type matrix: 18 integer wrapper types x {+=,-=,*=,/=,%=,&=,|=,^=} x operand types {int, unsigned, int64_t, uint64_t, uint8_t, uint16_t, int8_t, int16_t} x 12-13 boundary operand values per type x 15/22/30 stored values, plus <<=/>>= with counts {0,1,3,7,8,9,15,16,17,24,31,32,33,48,63} below the width of the PROMOTED wrapped type (32 for 16-bit wrappers: counts 16..31 are defined natively) as each integer operand type (the count equal to that width and -1 are listed as native-undefined, not executed); 6 float/double wrapper types x {+=,-=,*=,/=} x operand types {int, unsigned, int64_t, uint64_t, uint8_t, uint16_t, int8_t, int16_t, float, double} x boundary operand values x 30 stored values (NaNs, infinities, denormals included); native operator applied with the same operand expression type";
 }
 
 
@@ -230,5 +45,5 @@ VF_SECTION(pow2, 16, 16, 120) {
     C03_WF64(X)
 #undef X
   }
-  r.bound = "boundary pairs: 24 wrapper types, stored value in {+-(2^k-1), +-2^k, +-(2^k+1) : k = 0..width} (floats: +-2^k and neighbours for k in {1,7,8,15,16,23,24,25,31,32,33,52,53,54,63,64,65,max}, +-0, +-denormal, +-min, +-max, +-inf, 3 NaNs) x operand in the same set of EVERY operand type {int, unsigned, int64_t, uint64_t, uint8_t, uint16_t, int8_t, int16_t} (and float, double for + - * /) x every compound operator; <<=/>>= with every count below the width as each operand type";
+  r.bound = "boundary pairs: 24 wrapper types, stored value in {+-(2^k-1), +-2^k, +-(2^k+1) : k = 0..width} (floats: +-2^k and neighbours for k in {1,7,8,15,16,23,24,25,31,32,33,52,53,54,63,64,65,max}, +-0, +-denormal, +-min, +-max, +-inf, 3 NaNs) x operand in the same set of EVERY operand type {int, unsigned, int64_t, uint64_t, uint8_t, uint16_t, int8_t, int16_t} (and float, double for + - * /) x every compound operator; <<=/>>= with EVERY count the native operator defines (0 .. width of the promoted wrapped type - 1: 0..31 for 16- and 32-bit, 0..63 for 64-bit wrappers) as each integer operand type";
 }
